@@ -541,6 +541,182 @@ def check_reduce_dimension(rep: Report, prog: Program) -> None:
                   "every hop of the reduced path is lifted by the wrong power (1 acre^2 -> 3.6e18 ft^4)", fi.where(r))
 
 
+class _NoVerdict(Exception):
+    pass
+
+
+def _probe(e: ast.AST, env: Dict[str, object], exps: Tuple[int, ...], helpers: Dict[str, ast.FunctionDef], depth: int = 0) -> object:
+    """Evaluate a side-effect-free predicate over a dimension whose exponents are `exps` (a three-point abstraction of
+    the dimensions _splat files factors under).  Only the node kinds listed here are interpreted; anything else has no verdict."""
+    if isinstance(e, ast.Constant):
+        return e.value
+    if isinstance(e, ast.Name):
+        if e.id in env:
+            return env[e.id]
+        raise _NoVerdict(e.id)
+    if isinstance(e, ast.Attribute) and e.attr == "exponents" and isinstance(e.value, ast.Name) and env.get(e.value.id) == "<dimension>":
+        return exps
+    if isinstance(e, ast.UnaryOp) and isinstance(e.op, ast.Not):
+        return not _probe(e.operand, env, exps, helpers, depth)
+    if isinstance(e, ast.UnaryOp) and isinstance(e.op, ast.USub):
+        return -_probe(e.operand, env, exps, helpers, depth)  # type: ignore[operator]
+    if isinstance(e, ast.BoolOp):
+        vals = [_probe(v, env, exps, helpers, depth) for v in e.values]
+        return all(vals) if isinstance(e.op, ast.And) else any(vals)
+    if isinstance(e, ast.Compare) and len(e.ops) == 1:
+        a, b = _probe(e.left, env, exps, helpers, depth), _probe(e.comparators[0], env, exps, helpers, depth)
+        op = e.ops[0]
+        table = {ast.Lt: lambda: a < b, ast.LtE: lambda: a <= b, ast.Gt: lambda: a > b, ast.GtE: lambda: a >= b,  # type: ignore[operator]
+                 ast.Eq: lambda: a == b, ast.NotEq: lambda: a != b}
+        if type(op) in table:
+            return table[type(op)]()
+        raise _NoVerdict(ast.unparse(e))
+    if isinstance(e, ast.IfExp):
+        return _probe(e.body if _probe(e.test, env, exps, helpers, depth) else e.orelse, env, exps, helpers, depth)
+    if isinstance(e, (ast.GeneratorExp, ast.ListComp)) and len(e.generators) == 1 and isinstance(e.generators[0].target, ast.Name):
+        g = e.generators[0]
+        seq = _probe(g.iter, env, exps, helpers, depth)
+        out = []
+        for x in seq:  # type: ignore[attr-defined]
+            env2 = dict(env)
+            env2[g.target.id] = x  # type: ignore[union-attr]
+            if all(_probe(c, env2, exps, helpers, depth) for c in g.ifs):
+                out.append(_probe(e.elt, env2, exps, helpers, depth))
+        return out
+    if isinstance(e, ast.Call) and isinstance(e.func, ast.Name) and not e.keywords:
+        f = e.func.id
+        if f in ("any", "all", "sum", "min", "max", "abs", "len", "tuple", "list") and len(e.args) == 1:
+            v = _probe(e.args[0], env, exps, helpers, depth)
+            return {"any": any, "all": all, "sum": sum, "min": min, "max": max, "abs": abs, "len": len, "tuple": tuple, "list": list}[f](v)  # type: ignore[operator]
+        h = helpers.get(f)
+        if h is not None and depth < 2 and len(h.args.args) == len(e.args):
+            body = [st for st in h.body if not (isinstance(st, ast.Expr) and isinstance(st.value, ast.Constant))]
+            if len(body) == 1 and isinstance(body[0], ast.Return) and body[0].value is not None:
+                env2 = {a.arg: (env.get(x.id) if isinstance(x, ast.Name) else _probe(x, env, exps, helpers, depth)) for a, x in zip(h.args.args, e.args)}
+                return _probe(body[0].value, env2, exps, helpers, depth + 1)
+    raise _NoVerdict(ast.unparse(e)[:60])
+
+
+def check_factor_sign(rep: Report, prog: Program, rid: str = "R05.11") -> None:
+    """_splat files a factor in the numerator under its dimension and a factor in the denominator under the inverse of
+    its dimension; a dimensionless factor lands under Number either way.  _match_factors and _cancel_factors turn the
+    dimension a factor is filed under back into the exponent its step is applied with (`-1 if <test> else 1`).  The two
+    conventions agree only if the test says +1 for a numerator dimension - Number (all zeros) included - and -1 for
+    its inverse; probed on the three sign patterns a base dimension can be filed under."""
+    mi = prog.module("conversions")
+    helpers = {n.name: n for n in mi.tree.body if isinstance(n, ast.FunctionDef)}
+    # anchor: _splat's filing convention
+    sp = prog.func("conversions._splat")
+    conv = False
+    for node in ast.walk(sp.node):
+        if isinstance(node, ast.If) and ast.unparse(node.test).replace(" ", "") in ("exponent<0", "0>exponent"):
+            neg = any(isinstance(x, ast.Subscript) and "dimension**-1" in ast.unparse(x.slice).replace(" ", "").replace("(", "").replace(")", "") for st in node.body for x in ast.walk(st))
+            pos = any(isinstance(x, ast.Subscript) and ast.unparse(x.slice).replace(" ", "").endswith(".dimension") for st in node.orelse for x in ast.walk(st))
+            conv = neg and pos
+    if not conv:
+        rep.defer(AnalysisError("conversions._splat no longer files denominators under dimension**-1 and numerators under dimension (anchor of R05.11 moved)"))
+        return
+    n = 0
+    for q in ("conversions._match_factors", "conversions._cancel_factors"):
+        fi = prog.func(q)
+        for node in ast.walk(fi.node):
+            if not isinstance(node, ast.IfExp):
+                continue
+            arms = (ast.unparse(node.body), ast.unparse(node.orelse))
+            if arms not in (("-1", "1"), ("1", "-1")):
+                continue
+            dims = {x.id for x in ast.walk(node.test) if isinstance(x, ast.Name)} - set(helpers) - {"any", "all", "sum", "abs", "e", "len", "min", "max"}
+            gens = {g.target.id for x in ast.walk(node.test) if isinstance(x, (ast.GeneratorExp, ast.ListComp)) for g in x.generators if isinstance(g.target, ast.Name)}
+            dims -= gens
+            if len(dims) != 1:
+                rep.defer(AnalysisError(f"{q}: the sign test `{ast.unparse(node.test)[:60]}` does not read exactly one dimension"))
+                continue
+            dvar = next(iter(dims))
+            n += 1
+            for label, exps, want in (("Number (dimensionless numerator)", (0, 0, 0), 1), ("a numerator base dimension", (0, 1, 0), 1),
+                                      ("the inverse of a base dimension (denominator)", (0, -1, 0), -1)):
+                try:
+                    got = _probe(node, {dvar: "<dimension>"}, exps, helpers)
+                except _NoVerdict as ex:
+                    rep.defer(AnalysisError(f"{q}: cannot evaluate the sign test `{ast.unparse(node.test)[:60]}` ({ex})"))
+                    break
+                rep.check(rid, f"{q.split('.')[-1]}:{label.split(' (')[0]}", got == want,
+                          f"{q} applies a factor filed under {label} with exponent {got}, but _splat files it there as a factor of exponent "
+                          f"{want:+d}: its ratio is inverted (180 deg/s -> 10313 rad/s; 1 deg/s < 1 rad/s is False)", fi.where(node))
+    if n < 2:
+        rep.defer(AnalysisError("conversions: expected the `-1 if <dimension test> else 1` sign of _match_factors and _cancel_factors"))
+
+
+def check_inline_paths(rep: Report, prog: Program, rid: str = "R05.10") -> None:
+    """_inline_paths turns rough steps (ratio, start, end, exponent) into plan steps (ratio, path, exponent).
+    convert applies a step's ratio before its hops (and their offsets), so the plan means what the rough plan
+    means only if the mapping is element-wise: one plan step per rough step, in order, carrying that step's own
+    ratio and exponent; nothing else writes the result."""
+    fi = prog.func("conversions._inline_paths")
+    fn = fi.node
+    param = fi.params()[0]
+    sites: List[Tuple[ast.AST, ast.AST, ast.AST, Optional[ast.For]]] = []   # (target, iter, element, loop)
+    for n in ast.walk(fn):
+        if isinstance(n, ast.For):
+            for a in ast.walk(n):
+                if isinstance(a, ast.Call) and isinstance(a.func, ast.Attribute) and a.func.attr == "append" and len(a.args) == 1:
+                    sites.append((n.target, n.iter, a.args[0], n))
+        elif isinstance(n, (ast.ListComp, ast.GeneratorExp)) and len(n.generators) == 1:
+            sites.append((n.generators[0].target, n.generators[0].iter, n.elt, None))
+    sites = [s_ for s_ in sites if isinstance(s_[1], ast.Name) and s_[1].id == param]
+    if len(sites) != 1:
+        rep.fail(rid, "_inline_paths:element-wise", f"_inline_paths builds its result at {len(sites)} places over `{param}`; expected one "
+                 "append in a forward loop (or one comprehension)", fi.where())
+        return
+    target, _, elt, loop = sites[0]
+    if not (isinstance(target, ast.Tuple) and len(target.elts) == 4 and all(isinstance(x, ast.Name) for x in target.elts)):
+        rep.defer(AnalysisError("_inline_paths: the loop does not unpack (ratio, start, end, exponent)"))
+        return
+    ratio, _, _, exponent = (x.id for x in target.elts)  # type: ignore[union-attr]
+    ok = isinstance(elt, ast.Tuple) and len(elt.elts) == 3 and isinstance(elt.elts[0], ast.Name) and elt.elts[0].id == ratio \
+        and isinstance(elt.elts[2], ast.Name) and elt.elts[2].id == exponent
+    rep.check(rid, "_inline_paths:own-ratio-and-exponent", ok,
+              f"the plan step built for a rough step is {ast.unparse(elt)[:80]}: it must carry that step's own ratio and exponent", fi.where(elt))
+    if loop is not None:
+        body_nodes = [x for st in loop.body for x in ast.walk(st)]
+        rebound = sorted({x.id for x in body_nodes if isinstance(x, ast.Name) and isinstance(x.ctx, ast.Store) and x.id in (ratio, exponent)})
+        rep.check(rid, "_inline_paths:ratio-unmodified", not rebound,
+                  f"{', '.join(rebound)} rebound inside the loop before the step is built", fi.where(loop))
+        def _neutral(x: ast.AST) -> bool:
+            # `if ratio == 1 and start is end: continue` drops a step that does nothing
+            par = getattr(x, "_parent", None)
+            if not (isinstance(x, ast.Continue) and isinstance(par, ast.If) and par.body == [x]):
+                return False
+            conj = par.test.values if isinstance(par.test, ast.BoolOp) and isinstance(par.test.op, ast.And) else [par.test]
+            texts = {ast.unparse(c) for c in conj}
+            return f"{ratio} == 1" in texts and bool(texts & {f"{target.elts[1].id} is {target.elts[2].id}", f"{target.elts[2].id} is {target.elts[1].id}"})  # type: ignore[union-attr]
+        skips = [x for x in body_nodes if isinstance(x, (ast.Continue, ast.Break)) and not _neutral(x)]
+        app_stmt = next((st for st in loop.body if any(x is elt for x in ast.walk(st))), None)
+        top = isinstance(app_stmt, ast.Expr)
+        rep.check(rid, "_inline_paths:one-step-per-rough-step", not skips and top,
+                  "a rough step can leave the loop without its own plan step (continue / break / conditional append): its ratio "
+                  "would have to be applied somewhere else, and a ratio moved across a hop with an offset changes the result "
+                  "(1000 mK + 1 degC)", fi.where(skips[0] if skips else loop))
+        # the result list is only ever appended to
+        res = None
+        for a in ast.walk(loop):
+            if isinstance(a, ast.Call) and isinstance(a.func, ast.Attribute) and a.func.attr == "append" and a.args and a.args[0] is elt \
+                    and isinstance(a.func.value, ast.Name):
+                res = a.func.value.id
+        other_writes = []
+        for x in ast.walk(fn):
+            if isinstance(x, ast.Subscript) and isinstance(x.ctx, (ast.Store, ast.Del)) and isinstance(x.value, ast.Name) and x.value.id == res:
+                other_writes.append(x)
+            if isinstance(x, ast.Call) and isinstance(x.func, ast.Attribute) and isinstance(x.func.value, ast.Name) and x.func.value.id == res \
+                    and x.func.attr in ("insert", "extend", "pop", "remove", "reverse", "sort", "clear", "__setitem__"):
+                other_writes.append(x)
+            if isinstance(x, ast.AugAssign) and isinstance(x.target, ast.Name) and x.target.id == res:
+                other_writes.append(x)
+        rep.check(rid, "_inline_paths:append-only", not other_writes,
+                  f"the plan under construction is also written at {', '.join(fi.where(w) for w in other_writes[:3])}: a step already "
+                  "emitted is changed afterwards", fi.where(other_writes[0]) if other_writes else fi.where())
+
+
 def check_match_direction(rep: Report, prog: Program, rid: str = "R05.9") -> None:
     """_match_factors(x, y) yields steps (ratio, from-x, to-y, exponent).  _plan_conversion calls it once
     in the plan's direction and once with the sides exchanged; the steps of the exchanged call point the
@@ -658,6 +834,12 @@ def run(rep: Report) -> None:
     check_in_unit(rep, prog, "R05.7")
     check_reduce_dimension(rep, prog)
     check_match_direction(rep, prog)
+    rep.rule("R05.11", "the exponent a matched / cancelled factor is applied with agrees with the dimension _splat files it under: +1 for "
+             "Number and numerator dimensions, -1 for inverse dimensions", floor=6)
+    check_factor_sign(rep, prog)
+    rep.rule("R05.10", "_inline_paths is element-wise: one plan step per rough step, in order, with that step's own ratio and exponent; "
+             "the plan under construction is append-only", floor=4)
+    check_inline_paths(rep, prog)
     check_path_search(rep, prog)
     check_lifting(rep, prog)
     check_declared(rep)
